@@ -120,6 +120,14 @@ def run(tier, seed):
         par.pmap(work, all_tasks, extra=(False,), stats=st)
     par.pmap(work_degenerate, degenerate_gex_tasks(), stats=st, procs=1)
     check_client_environment(st)
+    # replay determinism: the same plan must give the same observation when executed again (and again after other executions)
+    for arch, short, plan in H.pick(all_tasks, seed + 7, 60):
+        sc = F.scenario(arch, short)
+        a = explore.run_plan(sc, plan)
+        b = explore.run_plan(sc, plan)
+        st.extra['replayed_twice'] += 1
+        if (a.status, a.stdout, len(a.world.conns), a.hang) != (b.status, b.stdout, len(b.world.conns), b.hang):
+            st.harness_errors.append('non-deterministic replay of %s %s' % (arch, plan))
     bound_done = 2 if second else 1
     # trace validation: cooperative run of every archetype, one trace per fault kind, plus a seed-selected sample
     vcases = []
